@@ -806,6 +806,6 @@ func init() {
 		Cases:      c15Cases,
 		Run:        c15Run,
 		Needs:      []string{"buf"},
-		Required:   []string{"faults_fired", "disk_fault_runs", "real_failure_runs", "kill_runs", "reader_observations", "limit_runs"},
+		Required:   []string{"faults_fired", "disk_fault_runs", "real_failure_runs", "kill_runs", "reader_observations", "limit_runs", "post_kill_followup_puts"},
 	})
 }
